@@ -510,7 +510,7 @@ void do_insert(Ctx& c, size_t vi, const Item& it, bool qau) {
     // B on the pinned tree: a stale count is stored (also into the memory) and the dirty state is lost; a correct implementation stays
     // dirty and leaves the count field alone. dirty_m stays set: "may be dirty".
     v.sus |= SUS_B;
-    if (s.is_mem) s.memsus |= SUS_B;
+    if (s.is_mem) s.memsus |= SUS_B | (newbits > 0 ? SUS_A : 0);  // with B alone repaired the memory still lacks the "recompute" mark that update() owed it (A)
   } else if (s.is_mem && newbits > 0) {
     s.memsus = v.sus; s.mem_dirty = false;  // exact count written through (nothing needs writing when no bit changed)
   }
